@@ -1,7 +1,7 @@
 """shared by C02 / C03: numeric cases on the real optimizers and their Coq-side evaluation"""
 from py import vlib
 
-MODELS = ['mlp', 'linear_nobias', 'seq', 'conv', 'emb', 'norm', 'gn', 'sublinear']
+MODELS = ['mlp', 'linear_nobias', 'seq', 'conv', 'emb', 'embpad', 'norm', 'gn', 'sublinear']
 CLIPS = ['flat', 'per_layer', 'adaptive', 'ghost']
 
 
